@@ -357,6 +357,25 @@ def run(ctx):
                           '%s uses self.tag' % prim, b_.where(), '%s for %s does not use the stored tag' % (prim, ty))
     ctx.floor('R18.4', 'ASN1 impls', n_as, 8)
 
+    # ---- R18.7 the two ASN.1 entry points decode under the rules their name says: from_ber under BER (it reads the T.125 connect response,
+    # whose length forms need not be minimal), from_der under DER (CredSSP).  A shared helper must receive the matching mode.
+    for fn, want in (('nla::asn1::from_ber', 'Ber'), ('nla::asn1::from_der', 'Der')):
+        fb = ctx.body(fn)
+        modes = set()
+        for path, st in feasible_paths(fb, P, limit=5000):
+            for ev in path_calls(st, re.compile(r'^yasna::parse_(ber|der|ber_general)$')):
+                nm = ev[1].callee
+                if nm.endswith('parse_ber'):
+                    modes.add('Ber')
+                elif nm.endswith('parse_der'):
+                    modes.add('Der')
+                else:
+                    m_ = unwrap_cast(resolve(st, ev[2][1])) if len(ev[2]) > 1 else ('unknown',)
+                    modes.add(m_[2] if m_[0] == 'agg' else 'unknown')
+        ctx.check(modes == {want}, 'R18.7', 'asn1:%s' % fn.rsplit('::', 1)[-1], '%s decodes under %s rules' % (fn.rsplit('::', 1)[-1], want.upper()), fb.where(),
+                  '%s decodes under %s rules: %s' % (fn, sorted(modes), 'valid BER that is not canonical DER (long-form short lengths, indefinite lengths) from a '
+                                                     'conforming server would be rejected' if want == 'Ber' else 'non-canonical encodings would be accepted'))
+
     # ---- R18.5 every DynOption targets an existing later field ---------------------------------------------------------------------
     n_dyn = 0
     for fn in dsl.constructors(P):
